@@ -45,7 +45,7 @@ class Leaf:
 class PathTable:
     def __init__(self, prog: Optional[Program] = None, module=None, accumulators: Sequence[str] = (),
                  env: Optional[Dict[str, sp.Expr]] = None, call_hook: Optional[Callable] = None, inline_depth: int = 2,
-                 positive: Sequence[str] = ()):
+                 positive: Sequence[str] = (), structured: bool = False):
         self.prog = prog
         self.module = module
         self.acc = set(accumulators)
@@ -53,12 +53,14 @@ class PathTable:
         self.user_hook = call_hook
         self.inline_depth = inline_depth
         self.positive = set(positive)
+        self.structured = structured
 
     # ------------------------------------------------------------------ translation with inlining
     def _T(self, env: Dict[str, sp.Expr], depth: int = 0) -> Translator:
         T = Translator(env=env, positive=self.positive)
         T._depth = depth
         T.attr_of_bound = True
+        T.structured = self.structured
 
         def hook(call, TT):
             if self.user_hook is not None:
@@ -95,7 +97,7 @@ class PathTable:
             else:
                 return None
         body = [st for st in g.node.body if not (isinstance(st, ast.Expr) and isinstance(st.value, ast.Constant))]
-        sub = PathTable(self.prog, g.module, (), env, self.user_hook, self.inline_depth)
+        sub = PathTable(self.prog, g.module, (), env, self.user_hook, self.inline_depth, structured=self.structured)
         try:
             ls = sub._walk(body, Leaf([], dict(env), []), depth + 1)
         except AnalysisError:
